@@ -265,7 +265,7 @@ theorem env_good (F : Facts10) (h : envTableOk F = true) (k : EnvKey) : (F.env k
 
 theorem HrefKey.idx_lt (k : HrefKey) : k.idx < HrefKey.count := by
   rcases k with ⟨v, sh⟩
-  have h1 : sh.idx ≤ 7 := by cases sh <;> decide
+  have h1 : sh.idx ≤ 8 := by cases sh <;> decide
   simp only [HrefKey.idx, HrefKey.count]
   cases v <;> simp <;> omega
 
@@ -275,6 +275,23 @@ theorem href_good (F : Facts10) (h : hrefTableOk F = true) (k : HrefKey) : (F.hr
   simp only [hrefTableOk, Bool.and_eq_true, decide_eq_true_eq, List.all_eq_true] at h
   have hk : k.idx < F.hrefTable.length := by rw [h.1]; exact HrefKey.idx_lt k
   unfold Facts10.href
+  simp only [List.getD_eq_getElem?_getD, List.getElem?_eq_getElem hk, Option.getD_some]
+  exact h.2 _ (List.getElem_mem hk)
+
+theorem FaultDocKey.idx_lt (k : FaultDocKey) : k.idx < FaultDocKey.count := by
+  rcases k with ⟨o, w, c⟩
+  have h1 : o.idx ≤ 7 := by cases o <;> decide
+  have h2 : c.idx ≤ 5 := by cases c <;> decide
+  simp only [FaultDocKey.idx, FaultDocKey.count]
+  cases w <;> simp <;> omega
+
+def faultDocTableOk (F : Facts10) : Bool :=
+  decide (F.faultDocTable.length = FaultDocKey.count) && F.faultDocTable.all (fun d => d == .proceed)
+
+theorem faultDoc_written (F : Facts10) (h : faultDocTableOk F = true) (k : FaultDocKey) : F.faultDoc k = .proceed := by
+  simp only [faultDocTableOk, Bool.and_eq_true, decide_eq_true_eq, List.all_eq_true, beq_iff_eq] at h
+  have hk : k.idx < F.faultDocTable.length := by rw [h.1]; exact FaultDocKey.idx_lt k
+  unfold Facts10.faultDoc
   simp only [List.getD_eq_getElem?_getD, List.getElem?_eq_getElem hk, Option.getD_some]
   exact h.2 _ (List.getElem_mem hk)
 
